@@ -201,9 +201,7 @@ romberg = Fn(I + 'romberg', ret='res', level='L0',
                     ('\n            r[[nmax - 1, nmax - 1]]\n', 'replace',
                      '\n ({ let out_ = r[[nmax - 1, nmax - 1]]; proof { let t_ = r.data.v@; lemma_idx(nmax - 1, nmax - 1, nmax as int, nmax as int); assert(t_.len() == nmax * nmax); assert(richardson(t_, nmax as int, nmax - 1)); '
                      'assert(out_ == at2(t_, nmax as int, nmax - 1, nmax - 1)); assert(romberg_result(nmax as int, out_)); } out_ })\n')])
-UNITS.append(Unit('C07_romberg', 'C07', [romberg], use=core.core_stubs(), spec=SPEC + ROM_SPEC, preludes=PRE, broadcast=BC, level='L0', types=core.TYPES, type_spec=core.TYPE_SPEC, rlimit=100,
-                  notes='romberg returns a diagonal entry of a tableau whose entries (n,m), m >= 1, are the Richardson extrapolation of their left and upper-left neighbours with factor 4^m - 1; '
-                        'the early exit can only return a level >= 2 (or the last level); the first column (refined trapezoid sums of the caller-supplied integrand) is left unconstrained'))
+# the unit for romberg (Richardson structure + first column) lives in contracts/C07b.py; `romberg` above is its base contract
 
 # ---------------------------------------------------------------- quad5: the 5-pair symmetric Gauss-Legendre sum on a caller-supplied integrand
 QUAD_SPEC = r"""
